@@ -177,6 +177,34 @@ func goStructPut(obj *object, name string, value Value, throw bool) {
 	objectPut(obj, name, value, throw)
 }
 
+// goContainerMarshalJSON is the json.Marshaler of a bridged map, array or
+// slice whose type has one (json.RawMessage, a named slice type with its own
+// MarshalJSON): JSON.stringify writes what json.Marshal writes for it.
+func goContainerMarshalJSON(obj *object) json.Marshaler {
+	var value reflect.Value
+	switch goObj := obj.value.(type) {
+	case *goMapObject:
+		value = goObj.value
+	case *goArrayObject:
+		value = goObj.value
+	case *goSliceObject:
+		value = goObj.value
+	default:
+		return nil
+	}
+	if value.CanAddr() {
+		if marshaler, ok := value.Addr().Interface().(json.Marshaler); ok {
+			return marshaler
+		}
+	}
+	if value.CanInterface() {
+		if marshaler, ok := value.Interface().(json.Marshaler); ok {
+			return marshaler
+		}
+	}
+	return nil
+}
+
 func goStructMarshalJSON(obj *object) json.Marshaler {
 	goObj := obj.value.(*goStructObject)
 	// A Marshaler with a pointer receiver is only in the method set of the pointer.
